@@ -82,7 +82,7 @@ def run(res, b, tier, seed):
     # two DIFFERENT files of one program with byte-identical content (round 14: C14-G gave the second one a prefix hashed from content plus
     # absolute path)
     same = b'var Count int = 0\nfunc Bump(n int) int {\n\tCount = Count + n\n\treturn Count\n}\n'
-    progs.append(pipeline.Case("i%d" % len(progs), {"main.tsh": b'import a "one/util.tsh"\nimport b "two/util.tsh"\nprint(a.Bump(2), b.Bump(40))\n',
+    progs.append(pipeline.Case("i%d" % len(progs), {"main.tsh": b'import (\n\ta "one/util.tsh"\n\tb "two/util.tsh"\n)\nprint(a.Bump(2), b.Bump(40))\n',
                                                      "one/util.tsh": same, "two/util.tsh": same}))
     progs.append(pipeline.Case("i%d" % len(progs), {"main.tsh": b'import (\n\ta "x/lib.tsh"\n\tb "y/z/lib.tsh"\n\tc "lib.tsh"\n)\nprint(a.Bump(1), b.Bump(2), c.Bump(3))\n',
                                                      "x/lib.tsh": same, "y/z/lib.tsh": same, "lib.tsh": same}))
@@ -114,6 +114,11 @@ def run(res, b, tier, seed):
             ref[(i, t)] = "OK " + payload if cls == "OK" else "ERR" if cls == "ERR" else cls
     fails = []
     evaluations = 0
+    # the directed programs [inter0, inter1) are written to be VALID on both targets: one that is rejected as written tests nothing
+    for i in range(inter0, inter1):
+        for t in ("bash", "batch"):
+            if not ref[(i, t)].startswith("OK"):
+                fails.append(("a directed program of this check is rejected as written (a broken program of the check, or a change of the language)", i, t, ref[(i, t)][:200]))
     # (a) repeated runs in fresh processes (different map iteration seeds), two more rounds
     for rnd in range(2 if quick else 6):
         again = [pipeline.Case(c.id, c.files, c.main) for c in progs]
